@@ -13,6 +13,13 @@ size limits, wired to an independent peer in memory (harness/workers/sess_real.p
 Self-test (tools_selftest_sess.py: single-edit mutations of a scratch copy of /repo/src, `VERIF_REPO=<copy> ./check C10
 --tier quick`; every mutation exit 1 with a concrete replay, the harmless rewrite exit 0; n8 / n9 also change the send()
 table generated from the source, so `fallback_covers_partial` no longer builds):
+  S  seeded/c10 (`if msg.receive_progress:` -> `if msg.receive_progress is not None:`)   quick exit 1, thorough exit 1
+      — missed while the INVOCATION vocabulary knew only "asked / not asked"; since the receive_progress detail is tri-state
+      (absent / true / explicitly false: all Invocation.parse accepts; any other wire value is its ProtocolError) and every
+      invocation shape runs with all three x both endpoint styles (`if details.progress:` ~p, `is not None` ~P), parts A and B:
+      keys: endpoint-args:receive_progress-false, progress-unasked:receive_progress-false
+      replay: open pump m.welcome,N reg,1,6,oda=0,ok m.registered,1,70 m.invocation,101,70,n,k1=7,f;r~p1
+      (the endpoint is handed D0.1 — a progress callable — and YIELD(progress=True) goes out although the caller said false)
   c10-n1-yield-sent-twice                                    exit 1  keys: reply-unsolicited:pending-result, reply-unsolicited:pending-result+progress …
       replay: open pump m.welcome,6072304108330602 reg,1,6,n,ok m.registered,1,70 m.invocation,101,70,n,k1=7.2=8,1;rp resolve,101,ca1.2/k1=2
   c10-n2-no-error-when-endpoint-raises                       exit 1  keys: no-reply:pending-result, no-reply:pending-result+progress …
@@ -72,7 +79,8 @@ MANIFEST_ENTRY = {
             "exactly one terminal reply goes out and the id leaves _invocations; reply_content (YIELD carries the return "
             "value, CallResult unpacked; ERROR the exception's URI/args/kwargs); endpoint_args_exact (the endpoint is called "
             "first thing with exactly the caller's args/kwargs plus CallDetails under its own details_arg iff registered "
-            "with one, progress callable iff the caller asked); progress_only_if_asked, progress_before_terminal_in_step; "
+            "with one, progress callable iff the receive_progress detail is `true` — tri-state: absent and an explicit `false` "
+            "both mean no); progress_only_if_asked (same tri-state), progress_before_terminal_in_step; "
             "duplicate_invocation_is_violation, unknown_registration_is_violation (ProtocolError, nothing changes); "
             "interrupt_yields_error, interrupt_ignored. The send() classification of the four transports is REGENERATED from "
             "the source on every run (translate/sendtab.py) and measured on the real transports: fallback_covers_partial "
@@ -139,6 +147,10 @@ def classify(script, i, v, fw):
         extra.append("progress-called-after-return")
     if any(_kind(t) == "m.interrupt" and t.split(",")[1] == req for t in script[:i + 1]):
         extra.append("interrupt")
+    rpf = inv.partition(";")[0].split(",")[5:6]
+    if clause in ("endpoint-args", "progress-unasked") and rpf in (["f"], ["0"]):
+        # the caller did not ask (detail explicitly false / absent), the endpoint got a progress callable / used it
+        return "%s:receive_progress-%s" % (clause, "false" if rpf == ["f"] else "absent")
     if clause == "no-reply" and faults[:2] == ["big", "big"]:
         return "no-reply:oversize-result:fallback-error-repeats-the-result-and-exceeds-the-limit-too"
     if clause == "no-reply" and faults[:1] == ["other"] and "rs" in fw and "twisted" in fw:
@@ -154,6 +166,7 @@ def classify(script, i, v, fw):
 
 ARGS = ["n", "a", "a5", "a5.6"]
 KWARGS = ["n", "k", "k1=7", "k1=7.2=8"]
+RP = [0, 1, "f"]                        # receive_progress absent / true / false (all the parser accepts)
 RET = ["r", "rv7", "rca1.2/k1=3", "rca/k", "rca4/k"]
 EXC = ["x", "xa5/a1/k1=2", "xa5/a/k", "xm6/a1.2", "xta3.4"]
 OKFAULT = ["ser.ok", "big.ok"]          # what the property covers: the fallback ERROR goes out
@@ -186,10 +199,11 @@ class Callee:
         return gid
 
     def invoke(self, gid, act, rp=None, args=None, kwargs=None):
+        """rp: the receive_progress detail — 0 absent, 1 true, "f" explicitly false"""
         self.req += 1
         r = self.rng
-        self.add("m.invocation,%d,%d,%s,%s,%d;%s" % (self.req, gid, args or r.choice(ARGS), kwargs or r.choice(KWARGS),
-                                                     r.choice([0, 1]) if rp is None else rp, act))
+        self.add("m.invocation,%d,%d,%s,%s,%s;%s" % (self.req, gid, args or r.choice(ARGS), kwargs or r.choice(KWARGS),
+                                                     r.choice(RP) if rp is None else rp, act))
         return self.req
 
     def script(self):
@@ -207,7 +221,8 @@ def rand_act(rng, pending_ok=True):
     else:
         a = rng.choice(RET)
     if rng.random() < 0.35:
-        a += "~p" + ".".join(str(rng.randint(1, 9)) for _ in range(rng.randint(1, 3)))
+        # progress calls made `if details.progress:` (~p) or `if details.progress is not None:` (~P)
+        a += rng.choice(["~p", "~P"]) + ".".join(str(rng.randint(1, 9)) for _ in range(rng.randint(1, 3)))
     if rng.random() < 0.1:
         a += "+" + rng.choice(["call,1,a,k,n,ok", "pub,1,a,k,n,ok", "unreg,0,ok"])
     return a
@@ -258,10 +273,11 @@ def gen(ctx):
     rng = ctx.rng
     quick = ctx.tier == "quick"
     out = []
-    # (a) every endpoint behaviour x details x receive_progress x payload shape, one invocation, send() ok
+    # (a) every endpoint behaviour x details x receive_progress {absent, true, false} x payload shape, one invocation,
+    # send() ok; endpoints that emit progress whenever details.progress is truthy (~p) / is not None (~P)
     for det in ("n", "oda=0", "oda=3"):
-        for rp in (0, 1):
-            for act in RET + EXC + ["rp", "r~p1", "rv2~p1.2.3", "x~p4", "rp~p5.6"]:
+        for rp in RP:
+            for act in RET + EXC + ["rp", "r~p1", "rv2~p1.2.3", "x~p4", "rp~p5.6", "r~P1", "rv2~P1.2", "xa5/a1/k~P4", "rp~P5"]:
                 for pump in ("always", "never"):
                     c = Callee(rng, pump)
                     g = c.register(det)
@@ -276,7 +292,7 @@ def gen(ctx):
                 c = Callee(rng, pump)
                 g = c.register("oda=0")
                 c.add("fault," + plan)
-                r = c.invoke(g, act, rp=1)
+                r = c.invoke(g, act, rp=1 if "~p" in act else rng.choice(RP))
                 if act.startswith("rp"):
                     later(c, rng, r)
                 out.append(("send-table", c.script(), all(p in ("ser.ok", "big.ok", "ok.ser.ok", "ser.ok.big.ok") for p in [plan])))
@@ -296,13 +312,13 @@ def gen(ctx):
         c.add("m.invocation,%d,%d,n,n,0;r" % (r + 5, g))        # no longer registered
         out.append(("protocol", c.script(), True))
     # (d) 1-3 concurrent invocations, INTERRUPT before / between / after, ok / fallback plans (Spec-checked)
-    n = 250 if quick else 100000
+    n = 180 if quick else 100000
     for _ in range(n):
         out.append(("concurrent", scenario(rng, rng.choice(["always", "never", "random"]), rng.randint(1, 3),
                                            rng.choice([[], [], OKFAULT])), True))
     # (e) what the property does not promise (correspondence only, plus known findings): send() raising another class,
     # a failing fallback, an ERROR that cannot be built, late progress, transport loss while replies are owed
-    m = 120 if quick else 30000
+    m = 80 if quick else 30000
     for _ in range(m):
         out.append(("hostile", scenario(rng, rng.choice(["always", "never", "random"]), rng.randint(1, 3),
                                         rng.choice([BADFAULT, OKFAULT + BADFAULT]), late=rng.random() < 0.3), False))
@@ -336,7 +352,7 @@ def limit_of(kind, lim):
     return 2 ** lim if kind == "rs" else lim
 
 
-def real_cases(rng, kind, lim, table):
+def real_cases(rng, kind, lim, table, quick=True):
     """-> list of (real_script, model_script). `table`: what this transport's send() was measured to do with each kind
     of result (spec -> ok | ser | big | other)"""
     n = limit_of(kind, lim)
@@ -357,6 +373,15 @@ def real_cases(rng, kind, lim, table):
         return "rv5" if spec == "v5" else "rca/k"      # a text result is rendered without its text: `a`
 
     out = []
+    # (0) the receive_progress detail absent / true / false on the wire x an endpoint that reports progress whenever it
+    # was given a callable (both styles) x registered with / without call details (registration 70 has them)
+    for rp in RP:
+        for pg in ("~p3.4", "~P3.4"):
+            for act in ("rv5", "rp", "xa5/a1/k"):
+                real = list(head) + ["m.invocation,9,70,a1,k1=2,%s;%s%s" % (rp, act, pg), "pump"]
+                if act == "rp":
+                    real += ["resolve,9,v1", "pump"]
+                out.append((real, list(real)))
     # (1) each result kind alone, synchronous and as a pending result completed later
     for spec in specs:
         for pending in (False, True):
@@ -371,7 +396,7 @@ def real_cases(rng, kind, lim, table):
                 model += (["fault," + p] if p else []) + ["m.invocation,9,70,a1,k1=2,0;%s" % model_ret(spec), "pump"]
             out.append((real, model))
     # (2) 1-3 invocations one after the other with mixed results, INTERRUPT before / after, errors, progress
-    for _ in range(2):
+    for _ in range(1 if quick else 3):
         real, model = list(head), list(head)
         for j in range(rng.randint(1, 3)):
             req = 20 + j
@@ -382,8 +407,11 @@ def real_cases(rng, kind, lim, table):
                 if rng.random() < 0.3:
                     real.append("m.interrupt,%d" % req)
                     model.append("m.interrupt,%d" % req)
-                real += ["m.invocation,%d,70,n,n,1;r%s~p3" % (req, spec), "pump"]
-                model += (["fault,ok." + p] if p else []) + ["m.invocation,%d,70,n,n,1;%s~p3" % (req, model_ret(spec)), "pump"]
+                rp = rng.choice(RP)
+                pg = rng.choice(["~p3", "~P3"])
+                real += ["m.invocation,%d,70,n,n,%s;r%s%s" % (req, rp, spec, pg), "pump"]
+                model += (["fault," + ("ok." if rp == 1 else "") + p] if p else []) + \
+                         ["m.invocation,%d,70,n,n,%s;%s%s" % (req, rp, model_ret(spec), pg), "pump"]
             elif x < 0.8:
                 act = rng.choice(EXC)
                 real += ["m.invocation,%d,70,a5,n,0;%s" % (req, act), "pump"]
@@ -423,7 +451,7 @@ def check_part_b(ctx, res):
                                "model": " ".join(want), "implementation": " ".join(got)})
             res.count("send-class:%s %s/%s: unserializable object -> %s, oversize -> %s" % (
                 fw, c[0], c[1], raw[c]["Uo"], raw[c]["S%d" % (limit_of(c[0], c[2]) + 200)]))
-        cases = {c: real_cases(rng, c[0], c[2], tables[c]) for c in combos}
+        cases = {c: real_cases(rng, c[0], c[2], tables[c], quick) for c in combos}
         obs = sc.run_real_parallel(fw, [{"kind": k, "ser": s, "link": link_for(k, lim), "scripts": [r for r, _ in cases[(k, s, lim)]]} for k, s, lim in combos])
         ctx.log(f"part B {fw}: {sum(len(v) for v in cases.values())} scripts over {len(combos)} transport x serializer x limit combinations")
         for c, o in zip(combos, obs):
